@@ -29,6 +29,7 @@ let string_of_chars (l : char list) = String.concat "" (List.map (String.make 1)
 
 let kind_letter = function C20_Vec -> "v" | C20_Arr -> "a"
 let exc_name = function C20_IndexError -> "IndexError" | C20_TypeError -> "TypeError" | C20_ValueError -> "ValueError"
+  | C20_RuntimeError -> "RuntimeError"
 let obs_str = function
   | C20_ObsObj (k, vals) -> kind_letter k ^ "[" ^ string_of_qlist vals ^ "]"
   | C20_ObsAlias r -> "=r" ^ string_of_int (int_of_nat r)
@@ -45,12 +46,30 @@ let dump_str st =
 
 exception Bad_op of string
 (* returns the op and whether the dump is printed after it *)
-let parse_op (s : string) : c20_op * bool =
+let parse_op ?(npv = false) (s : string) : c20_op * bool =
   let t = Array.of_list (List.filter (fun x -> x <> "") (String.split_on_char ' ' s)) in
   let r k = nat_of_int (int_of_string t.(k)) in
   let zi k = z_of_int (int_of_string t.(k)) in
   let qq k = q_of_string t.(k) in
   let ql k = qlist_of_string t.(k) in
+  let ni k = nat_of_int (int_of_string t.(k)) in
+  if npv then
+    (* `npv` scripts: registers are NumPy arrays; every access goes through a C++ NumPyVector around register r *)
+    match t.(0) with
+    | "new" -> C20_NewArr (ql 3), false
+    | "slice" -> C20_Slice (r 1, optz t.(2), optz t.(3), optz t.(4)), false
+    | "len" -> C20_NLen (r 1), false
+    | "get" -> C20_NGet (r 1, ni 2), false
+    | "set" -> C20_NSet (r 1, ni 2, qq 3), true
+    | "imuls" -> C20_NIMulS (r 1, qq 2), true
+    | "idivs" -> C20_NIDivS (r 1, qq 2), true
+    | "iadds" -> C20_NIAddS (r 1, qq 2), true
+    | "isubs" -> C20_NISubS (r 1, qq 2), true
+    | "norm1" -> C20_NNorm1 (r 1), false
+    | "norm22" -> C20_NNorm22 (r 1), false
+    | "norminf" -> C20_NNormInf (r 1), false
+    | x -> raise (Bad_op x)
+  else
   match t.(0) with
   | "new" -> C20_New (r 1, ql 3), false
   | "view" -> C20_View (r 1), false
@@ -102,6 +121,42 @@ let parse_op (s : string) : c20_op * bool =
   | "norminf" -> C20_NormInf (r 1), false
   | x -> raise (Bad_op x)
 
+(* `tv ; f 17 ; v 2,2 ; i 5`: the TupleVector scenario of harness/C20/impl.py (tv_case) on the extracted tuple model *)
+let tv_show = function
+  | C20_TFloat x -> "s:" ^ string_of_q x
+  | C20_TInt z -> "i:" ^ string_of_int (int_of_z z)
+  | C20_TVec l -> "v[" ^ string_of_qlist l ^ "]"
+let tv_res = function C20_Ok v -> tv_show v | C20_Exc e -> "!" ^ exc_name e
+let one = { qnum = z_of_int 1; qden = XH }
+let tv_bump = function
+  | C20_TFloat x -> C20_TFloat (c20_qadd x one)
+  | C20_TInt z -> C20_TInt (z_of_int (int_of_z z + 1))
+  | C20_TVec l -> C20_TVec (List.map (fun x -> c20_qadd x one) l)
+let tv_line (parts : string list) : string =
+  let elems = List.filter_map (fun p ->
+    match List.filter (fun x -> x <> "") (String.split_on_char ' ' (String.trim p)) with
+    | ["f"; x] -> Some (C20_TFloat (q_of_string x))
+    | ["i"; x] -> Some (C20_TInt (z_of_int (int_of_string x)))
+    | ["v"; x] -> Some (C20_TVec (qlist_of_string x))
+    | _ -> None) parts in
+  match c20_tv_construct elems with
+  | None -> "!construct"
+  | Some tv ->
+    let n = List.length tv in
+    let idx = List.init n (fun i -> i) in
+    let out = ref [Printf.sprintf "len=%d" n] in
+    let add s = out := s :: !out in
+    List.iter (fun i -> add (Printf.sprintf "%d:%s" i (tv_res (c20_tv_getitem tv (z_of_int i))))) idx;
+    add (Printf.sprintf "get%d:%s" n (tv_res (c20_tv_getitem tv (z_of_int n))));
+    let cp = ref (c20_tv_copy tv) in
+    List.iter (fun i ->
+      match c20_tv_setitem !cp (z_of_int i) (tv_bump (List.nth elems i)) with
+      | C20_Ok cp' -> cp := cp'; add (Printf.sprintf "set%d:ok" i)
+      | C20_Exc e -> add (Printf.sprintf "set%d:!%s" i (exc_name e))) idx;
+    add ("copy=" ^ String.concat "," (List.map (fun i -> tv_res (c20_tv_getitem !cp (z_of_int i))) idx));
+    add ("orig=" ^ String.concat "," (List.map (fun i -> tv_res (c20_tv_getitem tv (z_of_int i))) idx));
+    String.concat " | " (List.rev !out)
+
 let () =
   let cfg = if (Array.length Sys.argv > 2 && Sys.argv.(2) = "current") || Sys.getenv_opt "C20_CFG" = Some "current"
             then c20_cfg_current else c20_cfg_fixed in
@@ -110,7 +165,12 @@ let () =
     let line = String.trim (input_line ic) in
     let out =
       try
-        let ops = List.map (fun s -> parse_op (String.trim s)) (String.split_on_char ';' line) in
+        let parts = String.split_on_char ';' line in
+        let head = String.trim (List.hd parts) in
+        if head = "tv" then tv_line (List.tl parts) else
+        let npv = (head = "npv") in
+        let parts = if npv then List.tl parts else parts in
+        let ops = List.map (fun s -> parse_op ~npv (String.trim s)) parts in
         let st = ref c20_init and toks = ref [] in
         List.iter (fun (op, dumps) ->
           let (st', ob) = c20_step_reg cfg !st op in
